@@ -68,20 +68,24 @@ func (pj *internalParsedJson) parseMessage(msg []byte, ndjson bool) (err error) 
 		pj.indexChans = make(chan indexChan, indexSlots-2)
 	}
 	pj.buffersOffset = ^uint64(0)
+	verifEv(pj, "Enter", len(pj.indexChans), int(pj.ndjson), len(pj.Message))
 
 	var errStage1 error
 
 	// Do long inputs async
 	if len(pj.Message) > 8<<10 {
+		verifEv(pj, "Path", 1, len(pj.Message), 0)
 		var wg sync.WaitGroup
 		wg.Add(1)
 		go func() {
 			defer wg.Done()
 			if ok, done := pj.unifiedMachine(); !ok {
+				verifEv(pj, "Stage2Fail", 1, 0, 0)
 				err = errors.New("Bad parsing while executing stage 2")
 				// Keep consuming...
 				if !done {
 					for idx := range pj.indexChans {
+						verifEv(pj, "DrainRecv", idx.index, 1, 0)
 						if idx.index == -1 {
 							break
 						}
@@ -93,30 +97,39 @@ func (pj *internalParsedJson) parseMessage(msg []byte, ndjson bool) (err error) 
 			errStage1 = errors.New("Failed to find all structural indices for stage 1")
 		}
 		wg.Wait()
+		verifEv(pj, "Exit", len(pj.indexChans), 1, 0)
 	} else {
+		verifEv(pj, "Path", 0, len(pj.Message), 0)
 		if !pj.findStructuralIndices() {
 			// drain the channel until empty
 			for idx := range pj.indexChans {
+				verifEv(pj, "DrainRecv", idx.index, 2, 0)
 				if idx.index == -1 {
 					break
 				}
 			}
+			verifEv(pj, "Exit", len(pj.indexChans), 0, 0)
 			return errors.New("Failed to find all structural indices for stage 1")
 		}
 		if ok, _ := pj.unifiedMachine(); !ok {
+			verifEv(pj, "Stage2Fail", 0, 0, 0)
 			// drain the channel until empty
 			for {
 				select {
 				case idx := <-pj.indexChans:
+					verifEv(pj, "DrainRecv", idx.index, 3, 0)
 					if idx.index == -1 {
+						verifEv(pj, "Exit", len(pj.indexChans), 0, 0)
 						return errors.New("Bad parsing while executing stage 2")
 					}
 					// Already drained.
 				default:
+					verifEv(pj, "Exit", len(pj.indexChans), 0, 0)
 					return errors.New("Bad parsing while executing stage 2")
 				}
 			}
 		}
+		verifEv(pj, "Exit", len(pj.indexChans), 0, 0)
 		return nil
 	}
 
